@@ -263,9 +263,9 @@ func (c *shapeCase) tm(name string) string {
 		}
 		sb.WriteString(" ;\n")
 	case 1: // both instantiations, guarded alternatives
-		sb.WriteString("%flag F;\n\nS : tc T<+F> td | tg T<~F> td ;\nT<F> :\n    [F] " + c.body + "\n  | [!F] " + c.other + "\n  | te\n;\n")
+		sb.WriteString("%flag Flg;\n\nS : tc Tmpl<+Flg> td | tg Tmpl<~Flg> td ;\nTmpl<Flg> :\n    [Flg] " + c.body + "\n  | [!Flg] " + c.other + "\n  | te\n;\n")
 	case 2: // a flag with a default, propagated through an intermediate nonterminal
-		sb.WriteString("%flag F = false;\n\nS : tc M<+F> td | tg M td ;\nM<F> : T | tf T<~F> ;\nT<F> :\n    [F] " + c.body + "\n  | [!F] " + c.other + "\n  | te T\n;\n")
+		sb.WriteString("%flag Flg = false;\n\nS : tc Mid<+Flg> td | tg Mid td ;\nMid<Flg> : Tmpl | tf Tmpl<~Flg> ;\nTmpl<Flg> :\n    [Flg] " + c.body + "\n  | [!Flg] " + c.other + "\n  | te Tmpl\n;\n")
 	}
 	sb.WriteString("N : te ;\nL : ta tb ;\n")
 	if strings.Contains(c.body+c.other, "act()") {
@@ -277,7 +277,7 @@ func (c *shapeCase) tm(name string) string {
 func (c *shapeCase) desc() string {
 	s := "B: " + c.body
 	if c.tmpl > 0 {
-		s = fmt.Sprintf("B/template%d: [F] %s | [!F] %s", c.tmpl, c.body, c.other)
+		s = fmt.Sprintf("B/template%d: [Flg] %s | [!Flg] %s", c.tmpl, c.body, c.other)
 	}
 	if c.events {
 		s += " (eventBased)"
@@ -340,7 +340,7 @@ func inputConfigs(g *gramenum.Gram) [][]gramenum.Input {
 	return out
 }
 
-func cfgCases(scope gramenum.Scope, maxGrammars int, fullPrec bool) []*genCase {
+func cfgCases(scope gramenum.Scope, maxGrammars int, nprec int) []*genCase {
 	var out []*genCase
 	pcs := precConfigs(scope.T)
 	k := 0
@@ -355,13 +355,11 @@ func cfgCases(scope gramenum.Scope, maxGrammars int, fullPrec bool) []*genCase {
 		}
 		// every grammar: no precedence, first input configuration
 		add(nil, nil, ics[0])
-		// precedence blocks: all of them (fullPrec) or two per grammar, rotating, so that every
-		// block meets many grammars
+		// precedence blocks: nprec per grammar, rotating through the list so that every block
+		// meets many grammars (nprec >= len(list) = all of them)
 		var sel [][]precLine
-		if fullPrec {
-			sel = pcs[1:]
-		} else {
-			sel = [][]precLine{pcs[1+k%(len(pcs)-1)], pcs[1+(k+5)%(len(pcs)-1)]}
+		for j := 0; j < nprec && j < len(pcs)-1; j++ {
+			sel = append(sel, pcs[1+(k+j*3)%(len(pcs)-1)])
 		}
 		for pi, prec := range sel {
 			in := ics[(k+pi)%len(ics)]
@@ -386,7 +384,10 @@ func cfgCases(scope gramenum.Scope, maxGrammars int, fullPrec bool) []*genCase {
 	return out
 }
 
-func shapeCases(quick bool) []*genCase {
+// shapeCases: level 0 = depth <= 2 with the atom side of binary constructors restricted to four
+// representative atoms (quick); level 1 = all nine atoms there; level 2 = additionally binary
+// constructors over two level-1 shapes. A higher level extends the list of the lower one.
+func shapeCases(level int) []*genCase {
 	l1 := level1()
 	var out []*genCase
 	add := func(sc *shapeCase) { out = append(out, &genCase{shp: sc}) }
@@ -409,18 +410,6 @@ func shapeCases(quick bool) []*genCase {
 			add(&shapeCase{body: u.f(s.text), kind: u.kind + "(" + s.kind + ")", events: u.kind == "arrow"})
 		}
 	}
-	// depth 2: a binary constructor over (atom, level 1) and (level 1, atom)
-	for _, b := range binary {
-		for _, a := range atoms {
-			for _, s := range l1 {
-				if s.depth == 0 {
-					continue
-				}
-				add(&shapeCase{body: b.f(a.text, s.text), kind: b.kind + "(" + a.kind + "," + s.kind + ")"})
-				add(&shapeCase{body: b.f(s.text, a.text), kind: b.kind + "(" + s.kind + "," + a.kind + ")"})
-			}
-		}
-	}
 	// templates with flags
 	for v := 1; v <= 2; v++ {
 		for _, s := range l1 {
@@ -428,8 +417,31 @@ func shapeCases(quick bool) []*genCase {
 			add(&shapeCase{body: "ta", other: s.text, tmpl: v, kind: "template(" + s.kind + ")"})
 		}
 	}
-	if !quick {
-		// depth 2 in full: a binary constructor over two level-1 shapes
+	// depth 2: a binary constructor over (atom, level 1) and (level 1, atom)
+	binAtoms := func(sel func(a shape) bool) {
+		for _, b := range binary {
+			for _, a := range atoms {
+				if !sel(a) {
+					continue
+				}
+				for _, s := range l1 {
+					if s.depth == 0 {
+						continue
+					}
+					add(&shapeCase{body: b.f(a.text, s.text), kind: b.kind + "(" + a.kind + "," + s.kind + ")"})
+					add(&shapeCase{body: b.f(s.text, a.text), kind: b.kind + "(" + s.kind + "," + a.kind + ")"})
+				}
+			}
+		}
+	}
+	quickAtom := func(a shape) bool {
+		return a.text == "ta" || a.text == "N" || a.kind == "action" || a.kind == "lookahead"
+	}
+	binAtoms(quickAtom)
+	if level >= 1 {
+		binAtoms(func(a shape) bool { return !quickAtom(a) })
+	}
+	if level >= 2 {
 		for _, b := range binary {
 			for _, x := range l1 {
 				for _, y := range l1 {
@@ -445,19 +457,19 @@ func shapeCases(quick bool) []*genCase {
 }
 
 func buildCases(tier string) []*genCase {
-	quick := tier == "quick"
 	var out []*genCase
-	if quick {
-		out = append(out, cfgCases(gramenum.Scope{N: 1, T: 2, R: 2, K: 3, Reduced: true}, 1<<30, true)...)
-		out = append(out, shapeCases(true)...)
-		out = append(out, cfgCases(gramenum.Scope{N: 2, T: 2, R: 3, K: 2, Reduced: true}, 400, false)...)
-		out = append(out, cfgCases(gramenum.Scope{N: 1, T: 3, R: 3, K: 3, Reduced: true}, 300, false)...)
+	if tier == "quick" {
+		out = append(out, cfgCases(gramenum.Scope{N: 1, T: 2, R: 2, K: 3, Reduced: true}, 1<<30, 3)...)
+		out = append(out, shapeCases(0)...)
+		out = append(out, cfgCases(gramenum.Scope{N: 2, T: 2, R: 3, K: 2, Reduced: true}, 150, 2)...)
+		out = append(out, cfgCases(gramenum.Scope{N: 1, T: 3, R: 3, K: 3, Reduced: true}, 100, 2)...)
 	} else {
-		out = append(out, cfgCases(gramenum.Scope{N: 1, T: 2, R: 3, K: 3, Reduced: true}, 1<<30, true)...)
-		out = append(out, shapeCases(true)...)
-		out = append(out, cfgCases(gramenum.Scope{N: 2, T: 2, R: 3, K: 2, Reduced: true}, 1<<30, false)...)
-		out = append(out, cfgCases(gramenum.Scope{N: 1, T: 3, R: 3, K: 3, Reduced: true}, 6000, false)...)
-		out = append(out, shapeCases(false)[len(shapeCases(true)):]...)
+		out = append(out, cfgCases(gramenum.Scope{N: 1, T: 2, R: 2, K: 3, Reduced: true}, 1<<30, 100)...)
+		out = append(out, shapeCases(1)...)
+		out = append(out, cfgCases(gramenum.Scope{N: 1, T: 2, R: 3, K: 3, MinR: 3, Reduced: true}, 1<<30, 3)...)
+		out = append(out, cfgCases(gramenum.Scope{N: 2, T: 2, R: 3, K: 2, Reduced: true}, 3000, 2)...)
+		out = append(out, cfgCases(gramenum.Scope{N: 1, T: 3, R: 3, K: 3, Reduced: true}, 2000, 2)...)
+		out = append(out, shapeCases(2)[len(shapeCases(1)):]...)
 	}
 	return out
 }
@@ -747,6 +759,25 @@ func sameMultiset(a, b []string) bool {
 }
 
 var numRE = regexp.MustCompile(`[0-9]+`)
+var rejPosRE = regexp.MustCompile(`g\d+\.tm:\d+:\d+: `)
+var quotedRE = regexp.MustCompile(`'[^']*'`)
+
+// rejectClass reduces a compiler diagnostic to its message class (coverage only).
+func rejectClass(genErr string) string {
+	msg := strings.TrimPrefix(genErr, "compile: ")
+	msg = rejPosRE.ReplaceAllString(msg, "")
+	if i := strings.IndexByte(msg, '\n'); i >= 0 {
+		msg = msg[:i]
+	}
+	msg = quotedRE.ReplaceAllString(msg, "'_'")
+	if i := strings.Index(msg, " (and "); i >= 0 {
+		msg = msg[:i]
+	}
+	if strings.HasPrefix(msg, "input:") {
+		msg = "conflict"
+	}
+	return trimTo(msg, 60)
+}
 
 func slug(s string, maxWords int) string {
 	s = numRE.ReplaceAllString(s, "N")
@@ -894,6 +925,7 @@ type record struct {
 	N    int            `json:"n,omitempty"`
 	Out  map[string]int `json:"o,omitempty"`
 	Feat map[string]int `json:"f,omitempty"`
+	Rej  map[string]int `json:"r,omitempty"`  // compiler rejections by message class
 	NT   int            `json:"nt,omitempty"` // accepted cases with a non-trivial export
 	Last int            `json:"last,omitempty"`
 }
@@ -918,14 +950,14 @@ func worker(w *core.Worker) {
 			deadline = time.Unix(u, 0)
 		}
 	}
-	stats := record{T: "s", Out: map[string]int{}, Feat: map[string]int{}}
+	stats := record{T: "s", Out: map[string]int{}, Feat: map[string]int{}, Rej: map[string]int{}}
 	flush := func(last int) {
 		if stats.N == 0 {
 			return
 		}
 		stats.Last = last
 		w.Emit(stats)
-		stats = record{T: "s", Out: map[string]int{}, Feat: map[string]int{}}
+		stats = record{T: "s", Out: map[string]int{}, Feat: map[string]int{}, Rej: map[string]int{}}
 	}
 	last := -1
 	for idx, cs := range cases {
@@ -949,6 +981,9 @@ func worker(w *core.Worker) {
 		if genErr != "" || genPanic != "" {
 			st, key := genFailureKey(genErr, genPanic)
 			stats.Out[fam+":"+st]++
+			if st == "reject" {
+				stats.Rej[fam+": "+rejectClass(genErr)]++
+			}
 			if key != "" {
 				w.Emit(record{T: "v", Idx: idx, Key: key, What: trimTo(genErr+genPanic, 1500)})
 			}
@@ -1032,6 +1067,13 @@ func deathKey(how, tail string) string {
 
 func run(c *core.Ctx) {
 	cases := buildCases(c.Tier)
+	if os.Getenv("C30_PLAN") != "" { // development aid
+		fmt.Println("cases", len(cases))
+		for i := 0; i < len(cases); i += len(cases)/40 + 1 {
+			fmt.Println(i, cases[i].desc())
+		}
+		os.Exit(0)
+	}
 	fam := map[string]int{}
 	kinds := map[string]bool{}
 	for _, cs := range cases {
@@ -1062,6 +1104,7 @@ func run(c *core.Ctx) {
 	}
 	capAt := -1
 	feat := map[string]int{}
+	rej := map[string]int{}
 	c.RunShards(core.ShardOpts{
 		N:    16,
 		Args: []string{"enum", strconv.FormatInt(c.Deadline.Unix(), 10)},
@@ -1083,6 +1126,9 @@ func run(c *core.Ctx) {
 				for k, v := range r.Feat {
 					feat[k] += v
 				}
+				for k, v := range r.Rej {
+					rej[k] += v
+				}
 			case "cap":
 				if capAt < 0 || r.Idx < capAt {
 					capAt = r.Idx
@@ -1096,6 +1142,7 @@ func run(c *core.Ctx) {
 		},
 	})
 	c.Set("accepted_grammar_features", feat)
+	c.Set("compiler_rejections_by_class", rej)
 	if capAt >= 0 {
 		c.Capped(fmt.Sprintf("stopped at the budget: every case below index %d of %d was run (%s)", capAt, len(cases), cases[capAt].desc()))
 	}
@@ -1143,7 +1190,7 @@ func replay(c *core.Ctx, raw json.RawMessage) error {
 				fails = append(fails, r.Key+": "+r.What)
 			}
 			if r.T == "s" && r.Out["file:reject"] > 0 {
-				fmt.Println("note: the compiler rejects this case now")
+				fmt.Println("note: the compiler rejects this case now:", r.Rej)
 			}
 		},
 		OnDeath: func(idx int, desc, how, tail string) {
